@@ -42,11 +42,16 @@ SCENARIOS = [
 ]
 # intake bulks with more than one task (default: one task per bulk)
 BULKS = {'bulk-fail-mid': [['t1', 't2', 't3']], 'bulk-fail-first': [['t1', 't2']],
-         'bulk-cancel': [['t1', 't2']]}
+         'bulk-cancel': [['t1', 't2']], 'bulk-two-timeouts': [['t1', 't2']],
+         'bulk-timeouts-mixed': [['t1', 't2', 't3']]}
 SCENARIOS += [
     ('bulk-fail-mid',   [T('t1', 0), T('t2', 0, 'nolauncher'), T('t3', 1)], []),
     ('bulk-fail-first', [T('t1', 0, 'spawn'), T('t2', 0)], [['t2']]),
     ('bulk-cancel',     [T('t1', 0), T('t2', 0, timeout=5)], [['t1']]),
+    # several run-time limits registered with the timeout watcher in one pass
+    ('bulk-two-timeouts',   [T('t1', 0, timeout=5), T('t2', 0, timeout=7)], []),
+    ('two-timeouts',        [T('t1', 0, timeout=5), T('t2', 1, timeout=5)], []),
+    ('bulk-timeouts-mixed', [T('t1', 0, timeout=5), T('t2', 0), T('t3', 0, timeout=3)], [['t2']]),
 ]
 
 
